@@ -1194,6 +1194,7 @@ func buildMessageFieldSchema(pkg *Package, context fieldContext, src protoreflec
 		return &OneofField{
 			fieldContext: context,
 			Ref:          ref,
+			ListRules:    ext.list.GetOneof(),
 		}, nil
 	}
 
